@@ -57,7 +57,8 @@ class _Prog(nn.Module):
             elif k == 'bn':
                 BN = nn.BatchNorm2d if op['bdim'] == 2 else nn.BatchNorm1d
                 self.add_module(op['name'], BN(op['c'], affine=op.get('affine', True),
-                                               eps=op.get('eps', 1e-5)))
+                                               eps=op.get('eps', 1e-5),
+                                               momentum=op.get('momentum', 0.1)))
             elif k == 'act' and op['kind'] in ('relu_mod', 'relu6_mod', 'drop', 'ident'):
                 m = {'relu_mod': nn.ReLU(), 'relu6_mod': nn.ReLU6(), 'drop': nn.Dropout(0.3),
                      'ident': nn.Identity()}[op['kind']]
@@ -383,8 +384,9 @@ class Builder:
         # eps is a hyper-parameter of the layer (not in the state_dict): a conversion or export that
         # re-creates the BatchNorm must carry it over
         eps = self.rng.choice([1e-5, 1e-5, 1e-3, 1e-2, 5e-2])
+        momentum = self.rng.choice([0.1, 0.1, 0.01, 0.5])
         self.emit({'op': 'bn', 'name': name, 'src': src, 'out': out, 'c': shp[0], 'bdim': bdim,
-                   'affine': True, 'eps': eps}, shp, self.origin[src])
+                   'affine': True, 'eps': eps, 'momentum': momentum}, shp, self.origin[src])
         self.features.add('bn')
         if eps != 1e-5:
             self.features.add('bn-eps')
